@@ -253,3 +253,13 @@ def _version(st, p):
     st.version = p
     st.proto = proto
     return Outcome("msg")
+
+
+def send_set(st, n, c, t, payload, buffering=True):
+    """C07: a set command sent with buffering allowed to a node known to be sleeping is parked
+    (last writer wins per key); otherwise it is written immediately and unchanged."""
+    node = aget(st.nodes, n)
+    if buffering and node is not None and node.sleeping:
+        aset(st.parked, (n, c, t), payload)
+        return []
+    return [line(n, c, 1, 0, t, payload)]
